@@ -77,16 +77,21 @@ RemoveInventories(s, ids, n) ==
 \* prune(oldest, limit, ignore):
 \*   DELETE FROM routing WHERE node <> ?ignore AND rowid IN
 \*     (SELECT rowid FROM routing WHERE timestamp < ?oldest ORDER BY timestamp LIMIT ?limit)
-\* The LIMIT is applied to the old rows *including* the ignored node's; among rows with equal
-\* timestamps the choice is SQLite's.  limit = -1: none.
-PruneSelections(r, oldest, limit) ==
-    LET old == {k \in DOMAIN r : r[k] < oldest} IN
-    IF limit < 0 \/ limit >= Cardinality(old) THEN {old}
-    ELSE {S \in SUBSET old : /\ Cardinality(S) = limit
-                             /\ \A a \in S, b \in old \ S : r[a] <= r[b]}
+\* The code applies the LIMIT to the old rows *including* the ignored node's (so fewer than
+\* `limit` rows may go although more are eligible); among rows with equal timestamps the choice is
+\* SQLite's.  The statement does not fix that order, so the module also admits the other reading
+\* (LIMIT applied to the eligible rows only).  limit = -1: none.
+OldestFirst(r, cand, limit) ==
+    IF limit < 0 \/ limit >= Cardinality(cand) THEN {cand}
+    ELSE {S \in SUBSET cand : /\ Cardinality(S) = limit
+                              /\ \A a \in S, b \in cand \ S : r[a] <= r[b]}
+PruneDeletions(r, oldest, limit, ignore) ==
+    LET old == {k \in DOMAIN r : r[k] < oldest}
+        mine(S) == {k \in S : k[2] # ignore \/ Variant = "PruneForgetsLocal"}
+    IN {mine(S) : S \in OldestFirst(r, old, limit)}             \* LIMIT, then the ignore filter (the code)
+       \cup OldestFirst(r, mine(old), limit)                     \* ignore filter, then LIMIT
 Prune(s, oldest, limit, ignore) ==
-    {[ret |-> Cardinality(D), s |-> [s EXCEPT !.routing = Drop(@, D)]] :
-        D \in {{k \in S : k[2] # ignore \/ Variant = "PruneForgetsLocal"} : S \in PruneSelections(s.routing, oldest, limit)}}
+    {[ret |-> Cardinality(D), s |-> [s EXCEPT !.routing = Drop(@, D)]] : D \in PruneDeletions(s.routing, oldest, limit, ignore)}
 
 \* --------------------------------------------------------------------------
 \* Repository sync status: synced(rid, nid, head, time)
